@@ -14,7 +14,10 @@
            getopt_terminator                 (reference: after "--" everything is an argument)
    "without reading outside the argument strings"
         -> arguments_never_read_outside      (every read on every reachable cursor is Ok: all
-                                              peeks/pointer moves stay in [string, terminator])
+                                              peeks/pointer moves stay in [string, terminator], and
+                                              the three backward accesses argument.attach(arg - k, len)
+                                              satisfy k <= arg - start and len <= k + bytes ahead:
+                                              ArgsModel.attach_back, backward_attach_is_checked_ex)
    termination of the  while(read())  loop
         -> arguments_read_consumes, arguments_false_is_final, arguments_loop_terminates,
            arguments_item_count_bounded
